@@ -717,7 +717,7 @@ impl SliceProbe {
         }
         let arc = Arc::new(m.to_vec());
         self.tx.as_ref().unwrap().send((arc, start)).expect("slice worker");
-        let wait = if predicted_hang { 3 } else { 10 };
+        let wait = if predicted_hang { 2 } else { 5 };
         match self.rx.as_ref().unwrap().recv_timeout(Duration::from_secs(wait)) {
             Ok(v) => v,
             Err(_) => {
@@ -753,7 +753,7 @@ pub struct Watchdog {
 
 impl Watchdog {
     pub fn new(make: fn() -> CaseFn, secs: u64) -> Self {
-        Watchdog { make, tx: None, rx: None, hangs: 0, max_hangs: 3, deadline: Duration::from_secs(secs) }
+        Watchdog { make, tx: None, rx: None, hangs: 0, max_hangs: 2, deadline: Duration::from_secs(secs) }
     }
     fn spawn(&mut self) {
         let (tx, wrx) = channel::<(Value, Value)>();
